@@ -87,7 +87,10 @@ def _kwargs_reads(flow, key_exprs: List[ast.AST], kwname: str) -> Set[str]:
             if isinstance(n, ast.Name) and n.id == kwname and isinstance(n.ctx, ast.Load):
                 par = parents.get(id(n))
                 if isinstance(par, ast.Attribute) and par.attr in ("items", "keys", "values"):
-                    seen.add({"items": "items", "keys": "names", "values": "values"}[par.attr])
+                    kind = {"items": "items", "keys": "names", "values": "values"}[par.attr]
+                    if kind == "items":
+                        kind = _items_use(e, par, parents)
+                    seen.add(kind)
                 elif isinstance(par, ast.Call) and n in par.args:
                     fn = dotted(par.func) or ""
                     if fn in ("str", "repr", "json.dumps", "pickle.dumps", "functools._make_key", "_make_key"):
@@ -555,3 +558,47 @@ def _nostate_cond(ctx: Ctx, cname: str, f: FunctionInfo, node: ast.AST, target: 
                     return True, f"filled once under `if not {cont}:` with constructed instances"
         return False, f"the store into {cont} is not under an `if not {cont}:` miss test"
     raise AnalysisError(f"unknown R-NOSTATE side condition {cname}")
+
+
+def _items_use(root: ast.AST, items_attr: ast.Attribute, parents) -> str:
+    """``kwargs.items()`` feeding a comprehension that keeps only one component of each pair is lossy."""
+    cur = items_attr
+    while id(cur) in parents:
+        par = parents[id(cur)]
+        if isinstance(par, ast.comprehension):
+            comp = parents.get(id(par))
+            tgt = par.target
+            elts = []
+            if isinstance(comp, (ast.ListComp, ast.SetComp, ast.GeneratorExp)):
+                elts = [comp.elt]
+            elif isinstance(comp, ast.DictComp):
+                elts = [comp.key, comp.value]
+            used = {n.id for e in elts for n in ast.walk(e) if isinstance(n, ast.Name)}
+            if isinstance(tgt, (ast.Tuple, ast.List)) and len(tgt.elts) == 2 and all(isinstance(x, ast.Name) for x in tgt.elts):
+                k, v = tgt.elts[0].id, tgt.elts[1].id
+                if k in used and v in used:
+                    return "items"
+                if k in used:
+                    return "names"
+                if v in used:
+                    return "values"
+                return "nothing"
+            if isinstance(tgt, ast.Name):
+                subs = [n for e in elts for n in ast.walk(e) if isinstance(n, ast.Subscript) and isinstance(n.value, ast.Name)
+                        and n.value.id == tgt.id]
+                whole = any(isinstance(n, ast.Name) and n.id == tgt.id and not isinstance(parents.get(id(n)), ast.Subscript)
+                            for e in elts for n in ast.walk(e))
+                if whole or not subs:
+                    return "items"
+                idx = set()
+                for sub in subs:
+                    try:
+                        idx.add(ast.literal_eval(sub.slice))
+                    except Exception:
+                        return "items"
+                if {0, 1} <= idx or {-2, -1} <= idx:
+                    return "items"
+                return "names" if idx <= {0, -2} else "values"
+            return "items"
+        cur = par
+    return "items"
